@@ -439,15 +439,17 @@ impl FaceModify {
         if let Some(bg) = self.bg {
             face.bg = Some(bg);
         }
-        if let Some(underline) = self.underline {
-            face.attrs |= underline.into();
+        match self.underline {
+            None => {}
+            Some(UnderlineStyle::None) => face.attrs = face.attrs.remove(FaceAttrs::UNDERLINE),
+            Some(underline) => face.attrs = face.attrs.insert(underline.into()),
         }
         // TODO: underline_color
         for (update, flag) in [
             (self.bold, FaceAttrs::BOLD),
             (self.italic, FaceAttrs::ITALIC),
             (self.blink, FaceAttrs::BLINK),
-            (self.strike, FaceAttrs::BOLD),
+            (self.strike, FaceAttrs::STRIKE),
         ] {
             match update {
                 Some(true) => face.attrs = face.attrs.insert(flag),
